@@ -290,7 +290,8 @@ def touchChanged (now : Q) (s : Sess) : Sess :=
 
 inductive Op where
   -- wrapped by manage_accessed
-  | get (k : String)
+  /-- `session.get(k)` / `session.get(k, d)` -/
+  | get (k : String) (dflt : Option JV)
   | getitem (k : String)
   | contains (k : String)
   | len
@@ -370,7 +371,7 @@ def opNewCsrf (now : Q) (tok : String) (s : Sess) : Sess :=
 /-- One `ISession` call at clock `now`. -/
 def runOp (cfg : Cfg) (now : Q) (op : Op) (s : Sess) : Sess × Res :=
   match op with
-  | .get k => let (s, r) := opGet cfg now k s; (s, .val (r.getD .null))
+  | .get k dflt => let (s, r) := opGet cfg now k s; (s, .val (r.getD (dflt.getD .null)))
   | .getitem k =>
     let s := touchAccessed cfg now s
     match dget s.data k with
